@@ -27,7 +27,9 @@
  * number of times each fiber was scheduled by the event layer); the verdict is
  * taken by the monitor in tools/vf/props/C09.py.
  */
+#ifndef _GNU_SOURCE
 #define _GNU_SOURCE
+#endif
 #include <errno.h>
 #include <pthread.h>
 #include <signal.h>
